@@ -335,3 +335,35 @@ package nbs
 //@   ensures  verif_ghost.mRenamed ==> verif_ghost.mCheckedLock == lastLock
 //@   ensures  err == nil && verif_ghost.mRenamed ==> verif_ghost.mDirSynced && mc.lock == newContents.lock
 //@   ensures  !verif_ghost.mLockHeld
+
+// ---- batched lookups over one table (C01): a request is never silently dropped
+
+//@ extern (github.com/dolthub/dolt/go/store/nbs.tableIndex).entrySuffixMatches as verif_x_tableIndex_entrySuffixMatches
+//@   modifies nothing
+//@ extern (github.com/dolthub/dolt/go/store/nbs.tableIndex).indexEntry as verif_x_tableIndex_indexEntry
+//@   requires a == nil
+//@   modifies nothing
+
+// findOffsets: on the normal return every request is either marked found or |remaining| is reported, so the
+// caller goes on to consult the other tables (batched reads agree with single reads).
+//@ func (tableReader).findOffsets
+//@   property C01
+//@   ensures  err == nil && gcb == gcBehavior_Continue ==> forall k in 0..len(reqs): !reqs[k].found ==> remaining
+//@   loop 1
+//@     invariant filterLen == uint32(len(tr.prefixes)) && filterIdx <= filterLen
+//@     invariant forall k in 0..i: !reqs[k].found ==> remaining
+//@   loop 2
+//@     invariant filterLen == uint32(len(tr.prefixes)) && filterIdx <= j && j <= filterLen
+//@   loop 3
+//@     invariant filterLen == uint32(len(tr.prefixes)) && filterIdx <= filterLen && filterIdx <= j && 0 <= i && i < len(reqs)
+//@     invariant forall k in 0..i: !reqs[k].found ==> remaining
+
+// hasMany: when it reports nothing remaining, every requested address was marked present.
+//@ func (tableReader).hasMany
+//@   property C01
+//@   ensures  result2 == nil && result1 == gcBehavior_Continue && !result0 ==> forall k in 0..len(addrs): addrs[k].has
+//@   loop 1
+//@     invariant !remaining ==> forall k in 0..i: addrs[k].has
+//@   loop 3
+//@     invariant 0 <= i && i < len(addrs)
+//@     invariant !remaining ==> forall k in 0..i: addrs[k].has
